@@ -28,9 +28,9 @@ import (
 )
 
 type roleMap struct {
-	canon map[*ssa.Function]string // fn -> canonical full name (FuncName format)
+	canon  map[*ssa.Function]string // fn -> canonical full name (FuncName format)
 	byName map[string]*ssa.Function
-	recv  map[*types.Named]string // receiver type -> canonical type name
+	recv   map[*types.Named]string // receiver type -> canonical type name
 }
 
 func lowerFirst(s string) string {
